@@ -18,8 +18,38 @@ import (
 	"time"
 )
 
-type WaitGroup = sync.WaitGroup
 type Once = sync.Once
+
+// WaitGroup: in managed mode Wait is a scheduling point (enabled when the counter is zero); free mode = sync.WaitGroup.
+type WaitGroup struct {
+	wg sync.WaitGroup
+	n  int
+}
+
+func (w *WaitGroup) Add(delta int) {
+	if s := cur.Load(); s == nil {
+		w.wg.Add(delta)
+		return
+	}
+	w.n += delta
+	if w.n < 0 {
+		panic("sync: negative WaitGroup counter")
+	}
+}
+
+func (w *WaitGroup) Done() { w.Add(-1) }
+
+func (w *WaitGroup) Wait() {
+	s := cur.Load()
+	if s == nil {
+		w.wg.Wait()
+		return
+	}
+	if s.aborting {
+		return
+	}
+	s.at(PLock, "waitgroup", func() bool { return w.n == 0 })
+}
 
 // ---------------------------------------------------------------------------------------------------------------------
 // Scheduler
